@@ -265,3 +265,8 @@ def _dumps(V):
         V.ensure(f"post/{f}:returns-obj.dumps_{f}", z3.Implies(fmt.z == z3.StringVal(f), z3.BoolVal(bool(good))))
     unsupported = z3.And(fmt.z != z3.StringVal("xyz"), fmt.z != z3.StringVal("mol2"))
     V.ensure("post/unsupported-format:ValueError", z3.Implies(unsupported, z3.BoolVal(out.raised(I, "ValueError") and not cl)))
+
+
+# "honoured name overrides" for ensembles rests on the ensemble loaders themselves honouring `name` (and the unit): shared with C08
+from contracts import C08_xyz_units as C08
+P.include(C08.P, ["units[ensemble"], why="ml.load(..., otype='ensemble', name=...) can only honour the name if the class loaders do")
